@@ -75,7 +75,14 @@ KeyVars ==
      Key("empty", TRUE, << >>),
      Key("badalpha", TRUE, <<100,71,104,108,73,72,78,104,98,88,66,115,90,83,66,117,98,50,53,106,42,81,61,61>>),
      Key("urlsafe", TRUE, <<45,95,45,95,45,95,45,95,45,95,45,95,45,95,45,95,45,95,45,95,45,119,61,61>>),
-     Key("absent", FALSE, << >>) >>
+     Key("absent", FALSE, << >>),
+     \* decodes to 16 octets, not the canonical encoding (22nd symbol with non-zero unused bits)
+     Key("noncanon", TRUE, <<100,71,104,108,73,72,78,104,98,88,66,115,90,83,66,117,98,50,53,106,90,82,61,61>>) >>
+
+(* all 15 non-canonical spellings of a 16-octet nonce: the 22nd symbol carries 2 data bits and 4 unused bits *)
+B64Chars == <<65,66,67,68,69,70,71,72,73,74,75,76,77,78,79,80,81,82,83,84,85,86,87,88,89,90,97,98,99,100,101,102,103,104,105,106,107,108,109,110,111,112,113,114,115,116,117,118,119,120,121,122,48,49,50,51,52,53,54,55,56,57,43,47>>
+NonCanon(k, j) == [k EXCEPT ![22] = B64Chars[(B64Val(k[22]) \div 16) * 16 + j + 1]]
+NonCanonKeys == {Key("noncanon", TRUE, NonCanon(k, j)) : k \in {<<100,71,104,108,73,72,78,104,98,88,66,115,90,83,66,117,98,50,53,106,90,81,61,61>>, <<65,65,65,65,65,65,65,65,65,65,65,65,65,65,65,65,65,65,65,65,65,65,61,61>>, <<47,47,47,47,47,47,47,47,47,47,47,47,47,47,47,47,47,47,47,47,47,119,61,61>>}, j \in 1..15}
 
 Host0 == <<101,120,97,109,112,108,101,46,116,101,115,116>>
 Org(pres, y) == LET o == [present |-> pres, shape |-> "plain", scheme |-> <<104,116,116,112>>, y |-> y, port |-> << >>]
@@ -90,7 +97,9 @@ OriginVars ==
 
 NoFaultRec == [op |-> 0, kind |-> "err", closeErr |-> FALSE, hijackErr |-> FALSE]
 NoProto == [present |-> FALSE, v |-> << >>]
-RH(nil, hasExt, proto, extras) == [nil |-> nil, hasExt |-> hasExt, proto |-> proto, extras |-> extras]
+AppExtKey == <<83,101,99,45,87,101,98,115,111,99,107,101,116,45,69,120,116,101,110,115,105,111,110,115>>
+RHX(nil, hasExt, key, v, proto, extras) == [nil |-> nil, hasExt |-> hasExt, extKey |-> key, extV |-> v, proto |-> proto, extras |-> extras]
+RH(nil, hasExt, proto, extras) == RHX(nil, hasExt, AppExtKey, <<120,45,97,112,112,45,101,120,116,101,110,115,105,111,110>>, proto, extras)
 NilRH == RH(TRUE, FALSE, NoProto, << >>)
 Cfg(co, subsNil, subs, compress) ==
   [checkOrigin |-> co, subsNil |-> subsNil, subs |-> subs, compress |-> compress, hto |-> 0, errfn |-> FALSE,
@@ -133,7 +142,10 @@ PortProg(pv, iv) ==
 PortIVs == {Base} \cup (IF Full THEN UNION {{[Base EXCEPT ![d] = a] : a \in 1..Dims[d]} : d \in {1, 2, 3, 4, 5, 7}}
                         ELSE {[Base EXCEPT ![1] = 2], [Base EXCEPT ![3] = 8], [Base EXCEPT ![5] = 2]})
 
-IsCoreProgram(x) == (\E iv \in IVs : x = CoreProg(iv)) \/ (\E pv \in PortVars : \E iv \in PortIVs : x = PortProg(pv, iv))
+IsCoreProgram(x) ==
+  \/ \E iv \in IVs : x = CoreProg(iv)
+  \/ \E pv \in PortVars : \E iv \in PortIVs : x = PortProg(pv, iv)
+  \/ \E k \in NonCanonKeys : x = [CoreProg(Base) EXCEPT !.req.key = k]
 
 -----------------------------------------------------------------------------
 P1 == <<99,104,97,116>>
@@ -187,6 +199,20 @@ ExtVarsFull ==
     << <<102,111,111,59,32,97,61,34,117,110,116,101,114,109,105,110,97,116,101,100,44,32,112,101,114,109,101,115,115,97,103,101,45,100,101,102,108,97,116,101>> >>,
     << <<112,101,114,109,101,115,115,97,103,101,45,100,101,102,108,97,116,101,59,32,97,61,34,110,111,116,32,97,32,116,111,107,101,110,34>> >> }
 
+(* several header lines: an earlier line that is empty / ends with a comma / is malformed, a later proper offer *)
+LPmce == <<112,101,114,109,101,115,115,97,103,101,45,100,101,102,108,97,116,101,59,32,99,108,105,101,110,116,95,109,97,120,95,119,105,110,100,111,119,95,98,105,116,115>>
+ExtMulti ==
+  { << <<>>, LPmce >>, << <<44>>, LPmce >>, << <<120,45,111,116,104,101,114,44>>, LPmce >>, << <<120,45,111,116,104,101,114,32,106,117,110,107>>, LPmce >>,
+    << <<120,45,111,116,104,101,114,59,32,112,61,34,49>>, LPmce >>, << <<120,45,111,116,104,101,114,59,32,61,49>>, LPmce >>, << <<120,45,111,116,104,101,114,59,32,112,61,49>>, LPmce >>,
+    << <<120,45,111,116,104,101,114>>, <<>>, LPmce >>, << LPmce, <<120,45,111,116,104,101,114,32,106,117,110,107>> >>, << <<120,45,111,116,104,101,114,32,106,117,110,107>>, <<102,111,111>> >> }
+
+(* application supplied Sec-WebSocket-Extensions response header: key spelling x value *)
+AppExtKeys == { AppExtKey, <<83,101,99,45,87,101,98,83,111,99,107,101,116,45,69,120,116,101,110,115,105,111,110,115>>, <<115,101,99,45,119,101,98,115,111,99,107,101,116,45,101,120,116,101,110,115,105,111,110,115>> }
+AppExtVals == { <<112,101,114,109,101,115,115,97,103,101,45,100,101,102,108,97,116,101,59,32,115,101,114,118,101,114,95,110,111,95,99,111,110,116,101,120,116,95,116,97,107,101,111,118,101,114,59,32,99,108,105,101,110,116,95,110,111,95,99,111,110,116,101,120,116,95,116,97,107,101,111,118,101,114>>,
+                <<112,101,114,109,101,115,115,97,103,101,45,100,101,102,108,97,116,101,59,32,115,101,114,118,101,114,95,110,111,95,99,111,110,116,101,120,116,95,116,97,107,101,111,118,101,114>>, <<112,101,114,109,101,115,115,97,103,101,45,100,101,102,108,97,116,101>>, <<120,45,111,116,104,101,114>> }
+RHXVars == {RHX(FALSE, TRUE, k, v, NoProto, << >>) : k \in AppExtKeys, v \in AppExtVals}
+           \cup {RHX(FALSE, TRUE, AppExtKey, v, [present |-> TRUE, v |-> P1], << X(<<88,45,65,112,112>>, <<120>>) >>) : v \in AppExtVals}
+
 ExtVars == IF Full THEN ExtVarsFull
            ELSE {e \in ExtVarsFull : Len(e) = 0 \/ e[1] \in
                    { <<112,101,114,109,101,115,115,97,103,101,45,100,101,102,108,97,116,101>>, <<112,101,114,109,101,115,115,97,103,101,45,100,101,102,108,97,116,101,59,99,108,105,101,110,116,95,109,97,120,95,119,105,110,100,111,119,95,98,105,116,115,61,34,49,53,34,32,59,9,115,101,114,118,101,114,95,109,97,120,95,119,105,110,100,111,119,95,98,105,116,115,32,61,32,49,48>>,
@@ -198,6 +224,16 @@ IsNegoProgram(x) ==
           cfg |-> Cfg("nil", sb.nil, sb.list, cp),
           rh  |-> rh,
           fault |-> NoFaultRec]
+
+(* nego, second part: application extension header x client offers x EnableCompression; multi-line offers *)
+ExtFew == { << >>, << <<112,101,114,109,101,115,115,97,103,101,45,100,101,102,108,97,116,101>> >>, << <<102,111,111>> >>, << <<112,101,114,109,101,115,115,97,103,101,45,100,101,102,108,97,116,101,59,32,115,101,114,118,101,114,95,110,111,95,99,111,110,116,101,120,116,95,116,97,107,101,111,118,101,114,59,32,99,108,105,101,110,116,95,110,111,95,99,111,110,116,101,120,116,95,116,97,107,101,111,118,101,114>> >> }
+IsNego2Program(x) ==
+  \/ \E rh \in RHXVars : \E ex \in ExtFew \cup (IF Full THEN ExtMulti ELSE {}) : \E cp \in BOOLEAN : \E sb \in {[nil |-> TRUE, list |-> << >>], [nil |-> FALSE, list |-> << P1 >>]} :
+        x = [req |-> Req("GET", ConnVars[1], UpgVars[1], VerVars[1], KeyVars[1], OriginVars[1][2], OfferLines(<< P1 >>), ex),
+             cfg |-> Cfg("nil", sb.nil, sb.list, cp), rh |-> rh, fault |-> NoFaultRec]
+  \/ \E ex \in ExtMulti : \E cp \in BOOLEAN : \E rh \in {NilRH, RH(FALSE, FALSE, NoProto, << >>)} :
+        x = [req |-> Req("GET", ConnVars[1], UpgVars[1], VerVars[1], KeyVars[1], OriginVars[1][2], << >>, ex),
+             cfg |-> Cfg("nil", TRUE, << >>, cp), rh |-> rh, fault |-> NoFaultRec]
 
 -----------------------------------------------------------------------------
 (* Space "ext": quoted-string parameter values.  The pieces are written as *)
@@ -226,5 +262,5 @@ IsExtProgram(x) ==
           rh  |-> NilRH,
           fault |-> NoFaultRec]
 
-MCIsProgram(x) == IF Space = "core" THEN IsCoreProgram(x) ELSE IF Space = "nego" THEN IsNegoProgram(x) ELSE IsExtProgram(x)
+MCIsProgram(x) == IF Space = "core" THEN IsCoreProgram(x) ELSE IF Space = "nego" THEN (IsNegoProgram(x) \/ IsNego2Program(x)) ELSE IsExtProgram(x)
 =============================================================================
